@@ -72,6 +72,22 @@ Proof.
   rewrite (L_re_add O L), IH. reflexivity.
 Qed.
 
+Lemma cre_opp x : cre O (- x) = - cre O x.
+Proof.
+  assert (Hm1 : cofZ O (-1)%Z = - (1)).
+  { change (-1)%Z with (Z.opp 1). rewrite (L_ofZ_opp O L), (L_ofZ_1 O L). reflexivity. }
+  transitivity (cre O ((- (1)) * x)); [f_equal; ring|].
+  rewrite (L_re_mul_real O L); [ring|].
+  rewrite <- Hm1. apply (L_re_ofZ O L).
+Qed.
+
+Lemma cre_sub x y : cre O (x - y) = cre O x - cre O y.
+Proof. replace (x - y) with (x + - y) by ring. rewrite (L_re_add O L), cre_opp. ring. Qed.
+
+Lemma cre_csum_map {A} (F : A -> C) (l : list A) :
+  cre O (csum O (map F l)) = csum O (map (fun x => cre O (F x)) l).
+Proof. rewrite cre_csum, map_map. reflexivity. Qed.
+
 Lemma csum_map_map {A B} (f : B -> C) (g : A -> B) l :
   csum O (map f (map g l)) = csum O (map (fun x => f (g x)) l).
 Proof. rewrite map_map. reflexivity. Qed.
